@@ -50,6 +50,8 @@ pub struct Session {
     /// Verification harness only: when set, tracker/extractor spawns are recorded, not performed.
     #[cfg(feature = "verif")]
     verif_spawned: Option<Vec<&'static str>>,
+    #[cfg(feature = "verif")]
+    verif_spawn_args: Vec<String>,
 }
 
 #[derive(Debug)]
@@ -134,6 +136,8 @@ impl Session {
             files_extracted: false,
             #[cfg(feature = "verif")]
             verif_spawned: None,
+            #[cfg(feature = "verif")]
+            verif_spawn_args: vec![],
         }
     }
 
@@ -702,11 +706,6 @@ impl Session {
             return;
         }
 
-        #[cfg(feature = "verif")]
-        if let Some(log) = self.verif_spawned.as_mut() {
-            log.push("peer");
-        }
-
         let mut peer_handler = PeerHandler::new(
             addr.clone(),
             self.own_id,
@@ -717,7 +716,23 @@ impl Session {
             self.general_channels.broad.subscribe(),
         );
 
-        let job = tokio::spawn(async move { peer_handler.run_incoming().await });
+        // When recording: note what connection task was configured with, do not connect
+        #[cfg(feature = "verif")]
+        let recording = match self.verif_spawned.as_mut() {
+            Some(log) => {
+                log.push("peer");
+                self.verif_spawn_args.push(peer_handler.verif_identity());
+                true
+            }
+            None => false,
+        };
+        #[cfg(not(feature = "verif"))]
+        let recording = false;
+
+        let job = match recording {
+            true => tokio::spawn(async {}),
+            false => tokio::spawn(async move { peer_handler.run_incoming().await }),
+        };
 
         let peer = Peer::new(Some(peer_id), self.metainfo.pieces_num(), job);
         self.peers.insert(addr, peer);
@@ -936,6 +951,11 @@ impl Session {
     /// From now on record tracker/extractor spawns instead of performing them.
     pub fn verif_record_spawns(&mut self) {
         self.verif_spawned = Some(vec![]);
+    }
+
+    /// What connection tasks recorded as "peer" spawns were configured with.
+    pub fn verif_take_spawn_args(&mut self) -> Vec<String> {
+        std::mem::take(&mut self.verif_spawn_args)
     }
 
     pub fn verif_take_spawned(&mut self) -> Vec<&'static str> {
